@@ -1999,7 +1999,18 @@ class Transport(threading.Thread, ClosingContextManager):
         self._expected_packet = tuple(ptypes)
 
     def _verify_key(self, host_key, sig):
-        key = self._key_info[self.host_key_type](Message(host_key))
+        # NOTE: key classes & crypto backends raise assorted exceptions on
+        # mangled blobs (mirrors the server side's handling of client keys)
+        try:
+            key = self._key_info[self.host_key_type](Message(host_key))
+        except SSHException:
+            raise
+        except Exception as e:
+            raise SSHException(
+                "Unsupported or mangled host key ({}: {})".format(
+                    e.__class__.__name__, e
+                )
+            )
         if key is None:
             raise SSHException("Unknown host key type")
         # The signature must use the host key algorithm that was negotiated
@@ -2012,7 +2023,17 @@ class Transport(threading.Thread, ClosingContextManager):
                     self.host_key_type
                 )
             )
-        if not key.verify_ssh_sig(self.H, Message(sig)):
+        try:
+            valid = key.verify_ssh_sig(self.H, Message(sig))
+        except SSHException:
+            raise
+        except Exception as e:
+            raise SSHException(
+                "Mangled host key signature ({}: {})".format(
+                    e.__class__.__name__, e
+                )
+            )
+        if not valid:
             raise SSHException(
                 "Signature verification ({}) failed.".format(
                     self.host_key_type
